@@ -962,14 +962,25 @@ class Run:
             # the application runs two event loops one after the other (asyncio.run twice) and keeps
             # its sessions: nothing of a session may be tied to the loop of its earlier calls
             self.sim.count("probe.second-event-loop")
-            self._run_async_phase(ops[:cut])
-            self._run_async_phase(ops[cut:])
+            keep = []
+            try:
+                # half of the time the first loop is still open while the second one runs
+                self._run_async_phase(ops[:cut], keep if self.plan.get("ready_order_seed", 0) % 2 else None)
+                self._run_async_phase(ops[cut:])
+            finally:
+                for lp in keep:
+                    try:
+                        lp.close()
+                    except Exception:  # noqa: BLE001
+                        pass
         else:
             self._run_async_phase(ops)
 
-    def _run_async_phase(self, ops):
+    def _run_async_phase(self, ops, keep_open=None):
         order_rng = random.Random(self.plan.get("ready_order_seed", 0))
         loop = SimLoop(self.sim, order_rng)
+        if keep_open is not None:
+            keep_open.append(loop)
         try:
             per = {}
             env = []
@@ -987,10 +998,11 @@ class Run:
 
             loop.run_until_complete(main())
         finally:
-            try:
-                loop.close()
-            except Exception:  # noqa: BLE001
-                pass
+            if keep_open is None:
+                try:
+                    loop.close()
+                except Exception:  # noqa: BLE001
+                    pass
 
     # ---- views used by oracles
     def exchanges(self, res):
